@@ -7,13 +7,15 @@ CONSTANTS
   Menu,        \* Seq of points: WAL entry i is Menu[i] (id = i)
   MaxFlushes,  \* bound on completed + started data flushes (file ids)
   MaxCrashes,
-  Sorted       \* set of BOOLEAN: which kinds of forced flush to explore
+  Sorted,      \* set of BOOLEAN: which kinds of forced flush to explore
+  FieldMenu,   \* [Tables -> Seq(field list)]: successive definitions applied by Alter
+  WhereMenu    \* [Tables -> Seq(where id)]
 
-VARIABLE crashes
+VARIABLES crashes, nalt
 
-mcvars == <<vars, crashes>>
+mcvars == <<vars, crashes, nalt>>
 
-MCInit == Init /\ crashes = 0
+MCInit == Init /\ crashes = 0 /\ nalt = [t \in Tables |-> [f |-> 0, w |-> 0]]
 
 StepNoCrash ==
   \/ /\ Len(wal) < Len(Menu)
@@ -29,13 +31,22 @@ StepNoCrash ==
        \/ OffWrite(t)
        \/ RemoveOld(t)
 
+\* the schema in force: what the last Alter applied (kept in where/flds)
 MCNext ==
-  \/ StepNoCrash /\ UNCHANGED crashes
+  \/ StepNoCrash /\ UNCHANGED <<crashes, nalt>>
   \/ /\ crashes < MaxCrashes
      /\ Crash
-     /\ crashes' = crashes + 1
-  \/ Start /\ UNCHANGED crashes
-  \/ \E t \in Tables : Open(t, InitWhere[t], InitFlds[t]) /\ UNCHANGED crashes
+     /\ crashes' = crashes + 1 /\ UNCHANGED nalt
+  \/ Start /\ UNCHANGED <<crashes, nalt>>
+  \/ \E t \in Tables : Open(t, where[t], flds[t]) /\ UNCHANGED <<crashes, nalt>>
+  \/ \E t \in Tables :
+        \/ /\ nalt[t].f < Len(FieldMenu[t])
+           /\ AlterFields(t, FieldMenu[t][nalt[t].f + 1])
+           /\ nalt' = [nalt EXCEPT ![t].f = @ + 1] /\ UNCHANGED crashes
+        \/ RSFields(t) /\ UNCHANGED <<crashes, nalt>>
+        \/ /\ nalt[t].w < Len(WhereMenu[t])
+           /\ AlterWhere(t, WhereMenu[t][nalt[t].w + 1])
+           /\ nalt' = [nalt EXCEPT ![t].w = @ + 1] /\ UNCHANGED crashes
 
 MCSpec == MCInit /\ [][MCNext]_mcvars
 
@@ -51,6 +62,32 @@ FlushInvisible == [][FlushStep => \A t \in Tables : View(t)' = View(t)]_mcvars
 DiskEqualsViewAfterSwap ==
   [][\A t \in Tables : FlushSwap(t) => DiskView(t)' = View(t)']_mcvars
 
+
+\* C14: no step other than a crash (which loses only what recovery re-reads
+\* from the WAL) removes or shrinks a cell of a period that is still inside the
+\* retention window; what a truncating flush drops is expired
+KeepsLive(t) == \A e \in DOMAIN View(t) :
+                   Live(t, e[2], clock') => (e \in DOMAIN View(t)' /\ View(t)'[e] >= View(t)[e])
+NeverDropLive == [][(up /\ up') => \A t \in opened \cap opened' : KeepsLive(t)]_mcvars
+\* a point is stored only if it was inside the retention window when decided
+NeverStoreExpired ==
+  [][\A t \in Tables : (Decide(t) /\ Len(pend'[t]) > Len(pend[t]) /\ pend'[t][Len(pend'[t])].data)
+        => wal[rd'[t]].ts >= clock - Ret[t]]_mcvars
+
+\* C15: an Alter (either of its two steps) leaves the cells of every field
+\* that keeps its identity untouched, and a field it adds starts empty
+OnFieldSet(B, F) == [e \in {x \in DOMAIN B : x[3] \in F} |-> B[e]]
+AlterStep(t) == flds'[t] # flds[t] \/ mem'[t].flds # mem[t].flds
+AlterKeepsRetained ==
+  [][\A t \in opened \cap opened' : AlterStep(t) =>
+        LET R == Rng(flds[t]) \cap Rng(flds'[t])
+        IN OnFieldSet(View(t)', R) = OnFieldSet(View(t), R)]_mcvars
+AddedStartEmpty ==
+  [][\A t \in opened \cap opened' : flds'[t] # flds[t] =>
+        \A e \in DOMAIN View(t)' : e[3] \in Rng(flds[t])]_mcvars
+\* stored cells only ever belong to fields of the table's current or a former
+\* definition, and a flush or restart never changes a retained field's cells
+\* (FlushInvisible covers the flush steps)
 
 Bound == Len(wal) <= Len(Menu)
 =============================================================================
